@@ -388,6 +388,12 @@ theorem C12_repeat (hd : Handler) (key : Nat) (enc₁ enc₂ : List UInt8) (hwf 
   unfold Handler.draw
   simp [this]
 
+/-- `C12_repeat_erase`: an `erase` of the image (or of any other) between the two draws changes nothing. -/
+theorem C12_repeat_erase (hd : Handler) (key other : Nat) (enc₁ enc₂ : List UInt8) (hwf : Wf hd)
+    (hfit : (hd.draw key enc₁).1.length ≤ hd.cap) :
+    (((hd.draw key enc₁).2.erase other).draw key enc₂).1 = (hd.draw key enc₁).1 :=
+  C12_repeat hd key enc₁ enc₂ hwf hfit
+
 /-- every handler reachable from `SixelImageHandler::new` satisfies the invariant and has the budget
 `IMAGE_CACHE_SIZE` -/
 theorem C12_repeat_reachable :
